@@ -36,7 +36,7 @@ var assumptions = []string{
 
 func TestMain(m *testing.M) { evid.Main(m, "C03", rule, assumptions) }
 
-// H is one handler program. Ops: "s<code>" write status, "b" write body, "bc" the same through io.Copy,
+// H is one handler program. Ops: "s<code>" write status, "b" write body, "b0" a Write of no bytes, "bc" "b" through io.Copy,
 // "n" Next, "r" Next under recover, "c" cancel, "d" install a derived request
 // context and cancel that, "t" install a request context whose deadline has
 // passed, "l" install a live derived context, "f" install a fresh live context,
@@ -179,6 +179,8 @@ func (m *interp) exec(i int, h *H) {
 			m.write(code, "")
 		case op == "b" || op == "bc":
 			m.write(200, fmt.Sprintf("h%d;", i))
+		case op == "b0":
+			m.write(200, "") // a Write of no bytes commits the response like any other Write
 		case op == "n":
 			m.ev("next %d", i)
 			m.run()
@@ -270,6 +272,8 @@ func realFrom(c Case, base int) (res result) {
 					ctx.ResponseWriter().WriteHeader(code)
 				case op == "b":
 					_, _ = ctx.ResponseWriter().Write([]byte(fmt.Sprintf("h%d;", i)))
+				case op == "b0":
+					_, _ = ctx.ResponseWriter().Write(nil)
 				case op == "bc":
 					_, _ = io.Copy(ctx.ResponseWriter(), onlyReader{strings.NewReader(fmt.Sprintf("h%d;", i))})
 				case op == "n":
@@ -481,7 +485,7 @@ func checkCase(c Case) (out evid.Outcome) {
 					out.NonTrivial = true
 					out.Classes = append(out.Classes, "next-after-write-or-cancel")
 				}
-			case op == "b" || op == "bc" || op[0] == 's' || op == "c" || op == "d" || op == "t":
+			case op == "b" || op == "bc" || op == "b0" || op[0] == 's' || op == "c" || op == "d" || op == "t":
 				seenWriteOrCancel = true
 				if op == "bc" {
 					out.Classes = append(out.Classes, "body-streamed-with-io.Copy")
@@ -646,7 +650,11 @@ func genH(t *rapid.T) H {
 		case k < 9:
 			h.Ops = append(h.Ops, "r")
 		case k < 12:
-			h.Ops = append(h.Ops, "b")
+			if rapid.IntRange(0, 5).Draw(t, "emptywrite") == 0 {
+				h.Ops = append(h.Ops, "b0")
+			} else {
+				h.Ops = append(h.Ops, "b")
+			}
 		case k < 13:
 			h.Ops = append(h.Ops, "bc")
 		case k < 16:
